@@ -157,25 +157,30 @@ theorem net_early_data_counterexample :
     (sockOf n.a 0).ep.st = .established ∧ (sockOf n.b 1).ep.st = .established ∧
     (sockOf n.a 0).peer = some 40 ∧ (sockOf n.b 1).peer = some 33 := by decide +kernel
 
-/-- `close()` of a socket with an unread message, then a new connection from the same source address -/
-def halfOpen : List NOp :=
+/-- `close()` of a socket with an unread message, the closing handshake, then a new connection from the same source
+address; the accepted socket of the first connection is never closed by its application -/
+def closeUnread : List NOp :=
   [.op .B (.sock 2 128 (.addr 40)), .op .B (.listen 0 1), .op .A (.sock 2 128 (.addr 33)), .op .A (.connect 0 (.addr 40)),
    .op .A .collect, .deliver .B, .op .B (.accept 0), .op .B .collect, .deliver .A, .op .A (.connFin 0),
-   .op .B (.send 1 [5]), .op .B .collect, .deliver .A, .op .A (.close 0), .op .A .collect,
+   .op .B (.send 1 [5]), .op .B .collect, .deliver .A, .op .A (.close 0), .op .A .collect, .deliver .B,
+   .op .B .collect, .deliver .A, .op .A (.closeFin 0),
    .op .A (.sock 2 128 (.addr 33)), .op .A (.connect 1 (.addr 40)), .op .A .collect, .deliver .B, .op .B (.accept 0),
    .op .B .collect, .deliver .A, .op .A (.connFin 1),
    .op .B (.send 2 [7]), .op .B .collect, .deliver .A, .op .B (.send 1 [9]), .op .B .collect, .deliver .A,
-   .op .A (.recv 1), .op .A (.recv 1)]
+   .op .A (.recv 1)]
 
-/-- Finding `dlc-close-unread-data-no-disc`: `close()` took the unread I PDU for the DM, no DISC was sent, the
-accepted socket 1 of B stays ESTABLISHED (half-open).  The second connection from SAP 33 (A's socket 1, accepted
-as B's socket 2) then delivers to its application a message `[9]` that its peer never sent: it was sent by the
-half-open socket of the FIRST connection. -/
-theorem net_half_open_counterexample :
-    let n := (Net.init 128 false).run halfOpen
-    (sockOf n.a 0).ep.st = .shutdown ∧ (sockOf n.b 1).ep.st = .established ∧
-    (sockOf n.a 1).ep.delivered = [[7], [9]] ∧ (sockOf n.b 2).ep.accepted = [[7]] ∧
-    (sockOf n.b 1).ep.accepted = [[5], [9]] ∧ (sockOf n.a 1).cid = 2 ∧ (sockOf n.b 2).cid = 2 ∧ (sockOf n.b 1).cid = 1 := by
+/-- The history of the former finding `dlc-close-unread-data-no-disc` on the repaired code (fixes/C05/0002): `close()`
+with an unread message waits (`pending`) with DISC queued and the receive queue empty, the peer's socket goes to
+CLOSE_WAIT, its later `send()` is refused (nothing of it is accepted), and the second connection from SAP 33
+delivers exactly what its own peer sent. -/
+theorem net_close_unread_repaired :
+    let n := (Net.init 128 false).run closeUnread
+    (sockOf n.a 0).ep.st = .shutdown ∧ (sockOf n.b 1).ep.st = .closeWait ∧ (sockOf n.b 1).ep.accepted = [[5]] ∧
+    (sockOf n.a 1).ep.delivered = [[7]] ∧ (sockOf n.b 2).ep.accepted = [[7]] ∧ (sockOf n.a 1).ep.rq = [] ∧
+    n.wab = [] ∧ n.wba = [] ∧
+    (let m := (Net.init 128 false).run (closeUnread.take 14)
+     (sockOf m.a 0).ep.st = .disconnect ∧ (sockOf m.a 0).ep.sq = [.disc] ∧ (sockOf m.a 0).ep.rq = [] ∧
+     (sockOf m.a 0).ep.closing = true) := by
   decide +kernel
 
 /-! Non-vacuity of `sap_route_reaches_connection`: a server access point that still holds the accepted socket
